@@ -18,6 +18,12 @@ static int verif_sprintf(char *dst, const char *fmt, int prec, double v);
 #define sprintf verif_sprintf
 #include "read_func_extract.inc"
 #undef sprintf
+/* ReadComment: scaled counter (see unit.json) and a stub for the recovery routine */
+#undef MAX_COMMENT_LENGTH
+#define MAX_COMMENT_LENGTH 6
+static int g_skip_calls;
+Severity SkipInstance(istream &, std::string &) { g_skip_calls++; return SEVERITY_NULL; }
+#include "readcomment_extract.inc"
 #include "src/clutils/errordesc.cc"
 #include "verif.h"
 
